@@ -39,6 +39,13 @@ for mid in sorted(os.listdir(os.path.join(ROOT, "seeded"))):
         else:
             res = check.mini_search(os.path.join(wt, "src"), a.seed, a.shards, a.runs)
             rows.append((mid, res["runs"], res["diverging_runs"], res["diverge"], f"{time.time()-t:.0f}s", res["fatal"][:1]))
+            feats = {}
+            for c in res.get("cfgs", []):
+                for k, v in c.items():
+                    feats.setdefault(k, {}).setdefault(str(v), 0)
+                    feats[k][str(v)] += 1
+            if feats:
+                print("    features of diverging runs:", json.dumps(feats), flush=True)
         print(rows[-1], flush=True)
     finally:
         subprocess.run(["git", "-C", "/repo", "worktree", "remove", "--force", wt])
